@@ -100,6 +100,14 @@ func checkC07(r *mon.Run) {
 				if canonLib(db2) != canonRef(ref) || !bytes.Equal(db2.Bytes(), j.stream) {
 					r.Violation("C07|unmarshal-aliases-callers-buffer"+sfx, "after the caller reused its buffer the decoded database changed", replay)
 				}
+				// the same object decodes again (a variable re-read into one long-lived value): the
+				// result is what the second stream holds, not old and new together
+				if err := db2.Unmarshal(bytes.NewBuffer(append([]byte(nil), j.stream...))); err != nil {
+					r.Violation("C07|unmarshal-error"+sfx, "second Unmarshal on the same object: "+err.Error(), replay)
+				} else if canonLib(db2) != canonRef(ref) || !bytes.Equal(db2.Bytes(), j.stream) {
+					r.Violation("C07|unmarshal-into-used-object-differs"+sfx, fmt.Sprintf("a second Unmarshal of the same %d-byte stream into the same object yields %d bytes on re-encoding", len(j.stream), len(db2.Bytes())), replay)
+				}
+				r.Count("unmarshal_into_used_object", 1)
 			}
 		}); p != "" {
 			r.Violation("C07|marshal-panic", p, replay)
